@@ -49,6 +49,7 @@ const (
 	sizeShrink
 	sizeAbs
 	sizeReplayOld // resend, byte for byte, an STH that was accepted earlier for this log
+	sizeCrossLog  // resend, byte for byte, an STH that was accepted earlier for ANOTHER configured log
 	nSizeModes
 )
 
@@ -172,6 +173,13 @@ func genUpdate(t *rapid.T, o *Op) {
 	o.Proof = biased(t, nProofKinds, 6, "proof")
 	o.PA = rapid.IntRange(0, 40).Draw(t, "pa")
 	o.PB = rapid.IntRange(0, 300).Draw(t, "pb")
+	if rapid.IntRange(0, 9).Draw(t, "crossLogPreset") == 0 {
+		// the very bytes another log's update was accepted with, now addressed to this log (before or
+		// after it holds something); any proof kind
+		o.ReqID, o.SizeMode = reqKnown, sizeCrossLog
+		o.Proof = rapid.IntRange(0, nProofKinds-1).Draw(t, "crossProof")
+		return
+	}
 	if rapid.IntRange(0, 11).Draw(t, "conflictPreset") == 0 {
 		// same size as held, but a tree chosen freely: equal size + other root when past the fork point
 		o.ReqID, o.Sign, o.SizeMode = reqKnown, signRight, sizeSame
@@ -259,6 +267,32 @@ func candSize(o Op, held *cand, treeLen int) uint64 {
 		n = treeLen
 	}
 	return uint64(n)
+}
+
+// crossSource picks an STH accepted earlier for a log other than li, preferring one that carries no
+// log_id (those bytes are not bound to a log by anything but the signature).
+func crossSource(hist [][]*cand, li int, o Op) *cand {
+	var free, bound []*cand
+	for i := range hist {
+		k := (li + 1 + i) % len(hist)
+		if k == li {
+			continue
+		}
+		for _, c := range hist[k] {
+			if c.idMode == idAbsent || c.idMode == idZero {
+				free = append(free, c)
+			} else {
+				bound = append(bound, c)
+			}
+		}
+	}
+	if len(free) > 0 && (len(bound) == 0 || o.Salt%5 != 0) {
+		return free[o.Abs%len(free)]
+	}
+	if len(bound) > 0 {
+		return bound[o.Abs%len(bound)]
+	}
+	return nil
 }
 
 func pseudoNode(a, b int) []byte {
@@ -531,6 +565,24 @@ func checkSeq(t *testing.T, c SeqCase) harness.Verdict {
 				cd = hist[li][o.Abs%len(hist[li])]
 				ti, n = cd.tree, cd.size
 				class("update:byte-identical-resend")
+			} else if src := crossSource(hist, li, o); o.SizeMode == sizeCrossLog && src != nil {
+				// same raw bytes, judged for the log they are now sent to: the signature is another
+				// log's (distinct keys by construction); an embedded log_id names the other log
+				cp := *src
+				cp.sigValid = false
+				cp.idOK = src.idMode == idAbsent || src.idMode == idZero
+				cd = &cp
+				ti, n = cd.tree, cd.size
+				if cp.idOK {
+					class("update:cross-log-resend-without-log-id")
+					if h == nil {
+						class("update:cross-log-resend-without-log-id,nothing-held")
+					} else {
+						class("update:cross-log-resend-without-log-id,something-held")
+					}
+				} else {
+					class("update:cross-log-resend-with-log-id")
+				}
 			} else {
 				cd = makeCand(fam, logs, c.Foreign.key(), li, ti, n, o.TS, o.Sign, o.IDField, o.Salt)
 			}
